@@ -310,8 +310,18 @@ func sqlScenarios() []vrt.Scenario {
 
 // ---------------------------------------------------------------- re-entrancy
 
-var positions = []string{"handler", "handler-ctx", "handler-async", "handler-once", "handler-sequential", "handler-async-sequential", "filter", "before-hook", "before-hook-ctx", "after-hook", "after-hook-ctx"}
+var positions = []string{"handler", "handler-ctx", "handler-async", "handler-once", "handler-sequential", "handler-async-sequential", "filter", "before-hook", "before-hook-ctx", "after-hook", "after-hook-ctx", "replay-subscription-handler", "persistence-error-handler"}
 var callbacks = []string{"publish-same", "publish-same-shard", "publish-other-shard", "subscribe", "unsubscribe-self", "clear", "clear-all", "query"}
+
+// rejectStore refuses every append.
+type rejectStore struct{}
+
+func (rejectStore) Append(context.Context, *eventbus.Event) (eventbus.Offset, error) {
+	return "", fmt.Errorf("append rejected")
+}
+func (rejectStore) Read(context.Context, eventbus.Offset, int) ([]*eventbus.StoredEvent, eventbus.Offset, error) {
+	return nil, "", nil
+}
 
 type reInst struct {
 	name    string
@@ -363,6 +373,17 @@ func (r *reInst) Body() {
 	}
 	var opts []eventbus.Option
 	switch r.pos {
+	case "replay-subscription-handler":
+		// a resumable subscription's handler (live phase) on a persistent bus
+		opts = append(opts, eventbus.WithStore(eventbus.NewMemoryStore()))
+		evt.Deliver = func(ti, slot, id int, ctx context.Context) {
+			if slot == 2 && ti == T[0].Idx {
+				callback()
+			}
+		}
+	case "persistence-error-handler":
+		// the persistence error handler of a bus whose store rejects every append
+		opts = append(opts, eventbus.WithStore(rejectStore{}), eventbus.WithPersistenceErrorHandler(func(any, reflect.Type, error) { callback() }))
 	case "before-hook":
 		opts = append(opts, eventbus.WithBeforePublish(func(t reflect.Type, ev any) { callback() }))
 	case "before-hook-ctx":
@@ -398,6 +419,9 @@ func (r *reInst) Body() {
 		unsubSelf, _ = T[0].SubCustom(bus, body, nil, evt.SubOpts{Async: true, Sequential: true})
 	case "filter":
 		unsubSelf, _ = T[0].SubCustom(bus, func(context.Context, int) {}, func(id int) bool { callback(); return true }, evt.SubOpts{})
+	case "replay-subscription-handler":
+		T[0].SubReplay(context.Background(), bus, "sub", 2, evt.SubOpts{})
+		unsubSelf = func() error { return T[0].Unsub(bus, 2, false) }
 	}
 	T[0].Sub(bus, 1, evt.SubOpts{})
 	T[0].Pub(bus, 0)
